@@ -57,6 +57,10 @@ def make_handler(scenario, pv, budget, abrupt, state, rng_bytes):
     codec = codec_for(pv)
 
     def finish(io):
+        if state.get('clock_step'):
+            # the wall clock is stepped while the client waits for a reply
+            # that will not come (see one_case)
+            state['clock'].step(state['clock_step'])
         if abrupt:
             io.close(abrupt=True)
             return
@@ -198,6 +202,7 @@ def one_case(run, scenario, pv, default_pv, k, abrupt, rng_bytes, hook_log):
     if abrupt:
         run.count('cuts_with_reset')
     conn = None
+    stack = None
     try:
         if scenario == 'status-default-outside':
             # the default version is *not* one of the allowed versions
@@ -213,6 +218,22 @@ def one_case(run, scenario, pv, default_pv, k, abrupt, rng_bytes, hook_log):
         else:
             conn = pc.make_connection(server.port, rec, allowed_versions={pv})
         del hook_log[:]
+        # fault injection on the wall clock: in a third of the cut
+        # conversations the clock is stepped (one hour back or forth) at the
+        # moment the server goes away.  How long anything takes is none of
+        # the wall clock's business.
+        import contextlib
+        import zlib as _zlib
+        clock = pc.SteppingClock()
+        state['clock'] = clock
+        if k < 10 ** 8 and _zlib.crc32(repr((scenario, pv, k)).encode()) % 3 \
+                == 0 and 'eof/stalled-after-wall-clock-step' not in \
+                run.violations:
+            state['clock_step'] = (-3600, 3600)[k % 2]
+            w['wall_clock_stepped_by'] = state['clock_step']
+            run.count('cuts_with_wall_clock_step')
+        stack = contextlib.ExitStack()
+        stack.enter_context(clock)
         if scenario == 'plain-status':
             from minecraft.networking import connection as C
             conn.connect()                       # ends with VersionMismatch
@@ -284,6 +305,20 @@ def one_case(run, scenario, pv, default_pv, k, abrupt, rng_bytes, hook_log):
             run.violation('eof/fallback-loop', 'after a conversation that was '
                           'cut short the client kept opening connections',
                           dict(w, connections=n))
+            return 'ok', w
+        if not done and clock.steps and all(
+                c.eof or c.closed for c in server.connections
+                if hasattr(c, 'eof')) and state.get('cut'):
+            # the server is gone, no connection is open, the thread consumes
+            # no CPU and has not ended within 20 s - and the only unusual
+            # thing about this run is the step of the wall clock
+            run.violation('eof/stalled-after-wall-clock-step', 'after the '
+                          'server had gone away the networking thread neither '
+                          'terminated nor reported anything; the wall clock '
+                          'had been stepped while it was waiting',
+                          dict(w, threads=pc.dump_threads()[-800:]))
+            stack.close()
+            pc.safe_disconnect(conn)
             return 'ok', w
         if not done:
             return None, 'threads alive after watchdog (blocked?):\n' + \
@@ -466,12 +501,11 @@ def one_case(run, scenario, pv, default_pv, k, abrupt, rng_bytes, hook_log):
                 run.count('complete_frames_not_delivered')
         return 'ok', w
     finally:
+        if stack is not None:
+            stack.close()
         server.stop()
         if conn is not None:
-            try:
-                conn.disconnect(immediate=True)
-            except Exception:
-                pass
+            pc.safe_disconnect(conn)
 
 
 def refused_after_status_case(run, pv, default_pv, hook_log):
